@@ -49,6 +49,9 @@ def unit_tags(unit):
         p = os.path.join(VERIF, 'lemmas', lf)
         for m in LEMMA_TAG.finditer(open(p).read()):
             tags.update(x.strip() for x in m.group(2).split(',') if x.strip())
+    for ge in unit.get('generated_lemmas', []):
+        for v in ge['tags'].values():
+            tags.update(v)
     return tags
 
 
